@@ -1,11 +1,25 @@
 use crate::util::Ctx;
 
 pub mod c01;
+pub mod c02;
+pub mod c03;
+pub mod c04;
+pub mod c15;
+pub mod c05;
+pub mod c09;
+pub mod c17;
 
 pub fn run(name: &str, ctx: &mut Ctx) -> bool {
     match name {
         "selftest" => {},
         "c01" => c01::run(ctx),
+        "c02" => c02::run(ctx),
+        "c03" => c03::run(ctx),
+        "c04" => c04::run(ctx),
+        "c15" => c15::run(ctx),
+        "c05" => c05::run(ctx),
+        "c09" => c09::run(ctx),
+        "c17" => c17::run(ctx),
         _ => return false,
     }
     true
